@@ -127,7 +127,8 @@ impl NthChildSimple {
     match self {
       NthChildSimple::Numeric(n) => Ok(FunctionalPosition {
         step_size: 0,
-        offset: *n as i32,
+        // a position that does not fit must not be truncated to another position
+        offset: i32::try_from(*n).map_err(|_| NthChildError::InvalidSyntax)?,
       }),
       NthChildSimple::Functional(s) => parse_an_b(s),
     }
